@@ -182,6 +182,49 @@ def interpreted_component(S, tensor, cfg_extra=None):
     return None
 
 
+def expand_definitions(S, meths, p, stop, depth=0, cache=None):
+    """replace every atom that stands for a *computed* key (or one of its components) by the
+    exact polynomial its method returns (presence guards answered 'absent'), recursively, until
+    only the keys in `stop` (the inputs) are left.  None if something cannot be interpreted."""
+    import re
+    cache = {} if cache is None else cache
+    if depth > 8:
+        return None
+    mapping = {}
+    for atom in sorted(p.atoms()):
+        m = re.fullmatch(r"([A-Za-z_][A-Za-z_0-9]*)(?:\[([0-9,]+)\])?", atom)
+        if not m or m.group(1) in stop or m.group(1) not in meths:
+            continue
+        key = m.group(1)
+        idx = tuple(int(i) for i in m.group(2).split(",")) if m.group(2) else ()
+        if key not in cache:
+            cache[key] = interpreted_component(S, key)
+        arr = cache[key]
+        if arr is None:
+            return None
+        try:
+            v = arr.get(idx)
+        except Exception:  # noqa: BLE001
+            return None
+        if v == P.atom(atom):
+            continue
+        v = expand_definitions(S, meths, v, stop, depth + 1, cache)
+        if v is None:
+            return None
+        mapping[atom] = v
+    if not mapping:
+        return p
+    for k, c in p.t.items():
+        for a, e in k:
+            if a in mapping and (e.denominator != 1 or e < 0):
+                return None        # a substituted atom under a root / in a denominator
+    return p.subs(mapping)
+
+
+INPUT_KEYS = {"alpha", "betaup3", "gammadown3", "Kdown3", "dtalpha", "dtbetaup3", "rho0", "press",
+              "eps", "velup3", "w_lorentz", "Tdown4"}
+
+
 def guards(rep, meths):
     S = rep.sources
     guard_sites = []
@@ -205,6 +248,7 @@ def guards(rep, meths):
         if k in meths and pure_projection(meths[k], name, guarded=False):
             reverse.setdefault(name, set()).add(k)
     rep.extra_cov["guard_sites"] = len(guard_sites)
+    fn_of = meths
     done_pairs = set()
     for name, k, neg, node in guard_sites:
         key = f"{CORE}::AurelCore.{name}::guard('{k}')"
@@ -306,8 +350,57 @@ def guards(rep, meths):
                       "is taken unless something else was cached before (history dependence)",
                       node=node, detail={"class": "C", "tested": sorted(tested)})
             continue
+        # ---- class B, verified: a guarded projection self[k][idx] whose fallback is the very
+        # expression k() places at idx (k does not read the component back): both branches are
+        # the same exact polynomial, so which one is taken cannot matter
+        if k in meths and pure_projection(fn_of[name], k, guarded=True):
+            ok, why = False, "could not interpret both derivations"
+            try:
+                t_val = interpreted_component(S, k)
+                it1 = Interp(S, {"in:" + k: True})
+                proj = it1.to_arr(it1.run_method(name)).get(())
+                it0 = Interp(S, {"in:" + k: False})
+                v0 = it0.to_arr(it0.run_method(name)).get(())
+                from ..tensor import atom_name as _an
+                pos = [idx for idx in t_val.indices() if proj == P.atom(_an(k, idx))] \
+                    if t_val is not None else []
+                if len(pos) >= 1:
+                    ok = all(t_val.get(i) == v0 for i in pos)
+                    why = (f"{name}() returns {k}{list(pos[0])} when '{k}' is cached and "
+                           f"{v0!r} otherwise, but {k}() puts {t_val.get(pos[0])!r} there")
+            except (NeedConfig, Unsupported, PathEnds) as e:
+                why = f"could not interpret both derivations: {e}"
+            if ok:
+                rep.ok("guard/alternative-derivation", key,
+                       {"class": "B (verified)", "identity": f"{k}[..] is built from the "
+                        f"fallback expression of {name}"})
+                continue
+            if (name, k) not in CLASS_B:
+                rep.unverified("guard/alternative-derivation", key,
+                               "guarded projection with a fallback: " + why)
+                continue
         # ---- class B: alternative derivation
         if (name, k) in CLASS_B:
+            # try to *prove* the identity: both branches, expanded down to the inputs, are the
+            # same exact polynomial (possible when no inverse metric or derivative is involved)
+            proved = False
+            try:
+                it1 = Interp(S, {"in:" + k: True})
+                v1 = it1.to_arr(it1.run_method(name))
+                it0 = Interp(S, {"in:" + k: False})
+                v0 = it0.to_arr(it0.run_method(name))
+                if v1.shape == v0.shape == ():
+                    cache = {}
+                    a = expand_definitions(S, meths, v1.get(()), INPUT_KEYS, 0, cache)
+                    b = expand_definitions(S, meths, v0.get(()), INPUT_KEYS, 0, cache)
+                    proved = a is not None and b is not None and a == b
+            except (NeedConfig, Unsupported, PathEnds):
+                proved = False
+            if proved:
+                rep.ok("guard/alternative-derivation", key,
+                       {"class": "B (proved)", "identity": CLASS_B[(name, k)],
+                        "how": "both branches expanded to the inputs are one polynomial"})
+                continue
             rep.ok("guard/alternative-derivation", key,
                    {"class": "B", "assumed identity": CLASS_B[(name, k)]})
         elif name in ("rho0", "eps"):
@@ -459,4 +552,5 @@ def run(rep):
     rep.floor("guard/projection-pair", 20)
     rep.floor("guard/default-closure", 1)
     rep.floor("guard/alternative-derivation", 5)
+    rep.ceiling("guard/alternative-derivation", 0)
     rep.floor("protocol", 3)
